@@ -3,6 +3,8 @@
 #define VP_C07_H
 #include "vp_views.h"
 #include "vp_c05.h"
+#include "vp_la.h"
+#include <cstdlib>
 
 namespace vp { namespace c07 {
 using namespace Fastor; using namespace vp::vw;
@@ -41,6 +43,17 @@ void map1d(Ctx& c) {
         { T s; VP_LIB(s = inner(a, b)); T w = T(0); for (size_t i = 0; i < N; ++i) w += ra[i] * rb[i]; c.eqn(s, w, "inner(map,map)", 0); }
         { T s; VP_LIB(s = min(a)); T w = ra[0]; for (size_t i = 1; i < N; ++i) w = std::min(w, ra[i]); c.eqn(s, w, "min(map)", 0); }
         { T s; VP_LIB(s = max(a)); T w = ra[0]; for (size_t i = 1; i < N; ++i) w = std::max(w, ra[i]); c.eqn(s, w, "max(map)", 0); }
+        // member functions with their own vector loops (fill, zeros, iota, reverse, sum, product) on the wrapped storage
+        VP_LIB(r.fill(T(5))); for (size_t i = 0; i < N; ++i) c.eq(r.data()[i], T(5), "map.fill(5)", (long)i);
+        VP_LIB(r.zeros()); for (size_t i = 0; i < N; ++i) c.eq(r.data()[i], T(0), "map.zeros()", (long)i);
+        VP_LIB(r.ones()); for (size_t i = 0; i < N; ++i) c.eq(r.data()[i], T(1), "map.ones()", (long)i);
+        VP_LIB(r.iota(T(2))); for (size_t i = 0; i < N; ++i) c.eq(r.data()[i], (T)(T(2) + T(i)), "map.iota(2)", (long)i);
+        VP_LIB(r.arange(T(1))); for (size_t i = 0; i < N; ++i) c.eq(r.data()[i], (T)(T(1) + T(i)), "map.arange(1)", (long)i);
+        std::memcpy(r.data(), ra, sizeof ra); launder(r.data());
+        VP_LIB(r.reverse()); for (size_t i = 0; i < N; ++i) c.eq(r.data()[i], ra[N - 1 - i], "map.reverse()", (long)i);
+        { T s; VP_LIB(s = a.sum()); T w = T(0); for (size_t i = 0; i < N; ++i) w += ra[i]; c.eqn(s, w, "map.sum()", 0); }
+        { Tensor<T, N> sm; for (size_t i = 0; i < N; ++i) sm.data()[i] = (T)(1 + (i % 2)); std::memcpy(r.data(), sm.data(), sizeof(T) * N); launder(r.data());
+          T s; VP_LIB(s = r.product()); T w = T(1); for (size_t i = 0; i < N; ++i) w *= sm.data()[i]; if (N <= 20) c.eqn(s, w, "map.product()", 0); }
         // slices of maps, every step, both ends
         for (int st = 1; st <= 3 && (size_t)st <= N; ++st) {
             std::memcpy(r.data(), rb, sizeof rb); launder(r.data());
@@ -80,6 +93,122 @@ void map2d(Ctx& c) {
         { Tensor<T, M_, 1> col = A(all, K_ - 1); for (size_t i = 0; i < M_; ++i) c.eq(col.data()[i], A.data()[i * K_ + K_ - 1], "map(all,last)", (long)i); }
         { T keep = A.data()[M_ * K_ - 1]; VP_LIB(A(seq((int)M_ - 1, (int)M_), seq((int)K_ - 1, (int)K_)) += T(1)); c.eq(A.data()[M_ * K_ - 1], (T)(keep + T(1)), "map(last,last)+=1", 0); }
         ba.verify(c, "A"); bb.verify(c, "B"); bc.verify(c, "C"); bt.verify(c, "At");
+        ++c.sub;
+    }
+    c.nontrivial = true;
+}
+
+// ------------------------------------------------------------------ owning tensors placed flush against guard pages (or in an exact heap block under ASan)
+template <class Obj> struct Placed {
+    Guard* g = nullptr; void* heap = nullptr; Obj* o = nullptr;
+    explicit Placed(int pl) {
+        if (pl == 2) { if (posix_memalign(&heap, 64, sizeof(Obj))) { perror("posix_memalign"); _exit(3); } o = new (heap) Obj; }
+        else { g = new Guard(sizeof(Obj), pl == 0, 0); o = new (g->buf) Obj; }
+    }
+    ~Placed() { o->~Obj(); if (g) delete g; if (heap) free(heap); }
+    Obj& operator*() { return *o; } Obj* operator->() { return o; }
+    void verify(Ctx& c, const char* w) { if (g) g->verify(c, w); }
+    Placed(const Placed&) = delete;
+};
+#ifdef VP_ASAN
+static const int PLACEMENTS[] = { 2 };
+#else
+static const int PLACEMENTS[] = { 0, 1 };
+#endif
+
+template <class T, class E = void> struct FloatOnly1 { template <size_t N> static void run(Ctx&, Tensor<T, N>&, Tensor<T, N>&, const T*) {} };
+template <class T> struct FloatOnly1<T, typename std::enable_if<std::is_floating_point<T>::value>::type> {
+    template <size_t N> static void run(Ctx& c, Tensor<T, N>& a, Tensor<T, N>& r, const T* ra) {
+        VP_LIB(r = sqrt(abs(a))); for (size_t i = 0; i < N; ++i) c.eq(r.data()[i], (T)std::sqrt(std::abs(ra[i])), "r=sqrt(abs(a)) (placed)", (long)i);
+        { T s; VP_LIB(s = norm(a)); long double w = 0; for (size_t i = 0; i < N; ++i) w += (long double)ra[i] * ra[i]; c.near(s, sqrtl(w), 4 * (N + 2) * (long double)std::numeric_limits<T>::epsilon() * sqrtl(w), "norm(placed)", 0); }
+        { Tensor<double, N> d; VP_LIB(d = a.template cast<double>()); for (size_t i = 0; i < N; ++i) c.eq(d.data()[i], (double)ra[i], "a.cast<double>()", (long)i); }
+    }
+};
+
+// every member function and reduction with its own vector loop, on owning 1-D tensors of every size class
+template <class T, size_t N>
+void own1d(Ctx& c) {
+    Rng g = c.rng(); T ra[N], rb[N];
+    for (int pl : PLACEMENTS) {
+        Placed<Tensor<T, N>> pa(pl), pb(pl), pr(pl); Tensor<T, N>& a = *pa; Tensor<T, N>& b = *pb; Tensor<T, N>& r = *pr;
+        c05::fill_parent(ra, N, g); c05::fill_parent(rb, N, g); std::memcpy(a.data(), ra, sizeof ra); std::memcpy(b.data(), rb, sizeof rb); launder(a.data()); launder(b.data());
+        VP_LIB(r = a + b * T(2)); for (size_t i = 0; i < N; ++i) c.eq(r.data()[i], (T)(ra[i] + rb[i] * T(2)), "r=a+b*2 (placed)", (long)i);
+        VP_LIB(r -= a); for (size_t i = 0; i < N; ++i) c.eq(r.data()[i], (T)(rb[i] * T(2)), "r-=a (placed)", (long)i);
+        VP_LIB(r = abs(a) - b); for (size_t i = 0; i < N; ++i) c.eq(r.data()[i], (T)(std::abs(ra[i]) - rb[i]), "r=abs(a)-b (placed)", (long)i);
+        VP_LIB(r = -a); for (size_t i = 0; i < N; ++i) c.eq(r.data()[i], (T)(-ra[i]), "r=-a (placed)", (long)i);
+        FloatOnly1<T>::run(c, a, r, ra);
+        { T s; VP_LIB(s = sum(a)); T w = T(0); for (size_t i = 0; i < N; ++i) w += ra[i]; c.eqn(s, w, "sum(placed)", 0); }
+        { T s; VP_LIB(s = a.sum()); T w = T(0); for (size_t i = 0; i < N; ++i) w += ra[i]; c.eqn(s, w, "placed.sum()", 0); }
+        { T s; VP_LIB(s = inner(a, b)); T w = T(0); for (size_t i = 0; i < N; ++i) w += ra[i] * rb[i]; c.eqn(s, w, "inner(placed,placed)", 0); }
+        { T s; VP_LIB(s = min(a)); T w = ra[0]; for (size_t i = 1; i < N; ++i) w = std::min(w, ra[i]); c.eqn(s, w, "min(placed)", 0); }
+        { T s; VP_LIB(s = max(a)); T w = ra[0]; for (size_t i = 1; i < N; ++i) w = std::max(w, ra[i]); c.eqn(s, w, "max(placed)", 0); }
+        { T s; VP_LIB(s = min(a - b)); T w = (T)(ra[0] - rb[0]); for (size_t i = 1; i < N; ++i) w = std::min(w, (T)(ra[i] - rb[i])); c.eqn(s, w, "min(placed-placed)", 0); }
+        { bool e; VP_LIB(e = isequal(a, a)); c.check(e, "mismatch", "isequal(a,a)"); }
+        VP_LIB(r.fill(T(5))); for (size_t i = 0; i < N; ++i) c.eq(r.data()[i], T(5), "placed.fill(5)", (long)i);
+        VP_LIB(r.zeros()); for (size_t i = 0; i < N; ++i) c.eq(r.data()[i], T(0), "placed.zeros()", (long)i);
+        VP_LIB(r.ones()); for (size_t i = 0; i < N; ++i) c.eq(r.data()[i], T(1), "placed.ones()", (long)i);
+        VP_LIB(r.iota(T(2))); for (size_t i = 0; i < N; ++i) c.eq(r.data()[i], (T)(T(2) + T(i)), "placed.iota(2)", (long)i);
+        VP_LIB(r.arange(T(1))); for (size_t i = 0; i < N; ++i) c.eq(r.data()[i], (T)(T(1) + T(i)), "placed.arange(1)", (long)i);
+        VP_LIB(r.random()); VP_LIB(r.randint());
+        std::memcpy(r.data(), ra, sizeof ra); launder(r.data());
+        VP_LIB(r.reverse()); for (size_t i = 0; i < N; ++i) c.eq(r.data()[i], ra[N - 1 - i], "placed.reverse()", (long)i);
+        { for (size_t i = 0; i < N; ++i) r.data()[i] = (T)(1 + (i % 2)); launder(r.data()); T s; VP_LIB(s = r.product()); T w = T(1); for (size_t i = 0; i < N; ++i) w *= r.data()[i]; if (N <= 20) c.eqn(s, w, "placed.product()", 0);
+          T s2; VP_LIB(s2 = product(r)); if (N <= 20) c.eqn(s2, w, "product(placed)", 0); }
+        // copy construction / assignment between placed objects, scalar broadcast
+        VP_LIB(r = a); for (size_t i = 0; i < N; ++i) c.eq(r.data()[i], ra[i], "r=a (placed copy)", (long)i);
+        VP_LIB(r = T(9)); for (size_t i = 0; i < N; ++i) c.eq(r.data()[i], T(9), "r=9 (placed)", (long)i);
+        { Tensor<T, N> v; VP_LIB(v = a(seq(0, (int)N))); for (size_t i = 0; i < N; ++i) c.eq(v.data()[i], ra[i], "v=placed(seq(0,N))", (long)i); }
+        { VP_LIB(r(seq(0, (int)N)) = b); for (size_t i = 0; i < N; ++i) c.eq(r.data()[i], rb[i], "placed(seq(0,N))=b", (long)i); }
+        { VP_LIB(r(fseq<0, (int)N>()) = a); for (size_t i = 0; i < N; ++i) c.eq(r.data()[i], ra[i], "placed(fseq<0,N>)=a", (long)i); }
+        pa.verify(c, "a"); pb.verify(c, "b"); pr.verify(c, "r"); ++c.sub;
+    }
+    c.nontrivial = true;
+}
+
+template <class T, size_t M, class E = void> struct Square { static void run(Ctx&, int) {} };
+// square matrices: identity builders, triangular extraction, determinant family, inverse, LU, solve, QR on placed operands (values are judged by
+// C10-C13/C16; here the operations only have to stay inside their operands and give finite results on a dominant matrix)
+template <class T, size_t M> struct Square<T, M, typename std::enable_if<std::is_floating_point<T>::value>::type> {
+    static void run(Ctx& c, int pl) {
+        Rng g = c.rng(7);
+        Placed<Tensor<T, M, M>> pA(pl), pX(pl), pL(pl), pU(pl); Placed<Tensor<T, M>> pb(pl), px(pl);
+        Tensor<T, M, M>& A = *pA; Tensor<T, M, M>& X = *pX; Tensor<T, M, M>& L = *pL; Tensor<T, M, M>& U = *pU; Tensor<T, M>& b = *pb; Tensor<T, M>& x = *px;
+        la::fill_dominant(A.data(), M, g); fill_real(b.data(), M, g);
+        VP_LIB(X.eye2()); for (size_t i = 0; i < M; ++i) for (size_t j = 0; j < M; ++j) c.eq(X.data()[i * M + j], (T)(i == j), "placed.eye2()", (long)(i * M + j));
+        VP_LIB(X.eye());  for (size_t i = 0; i < M; ++i) for (size_t j = 0; j < M; ++j) c.eq(X.data()[i * M + j], (T)(i == j), "placed.eye()", (long)(i * M + j));
+        VP_LIB(X = tril(A)); for (size_t i = 0; i < M; ++i) for (size_t j = 0; j < M; ++j) c.eq(X.data()[i * M + j], j <= i ? A.data()[i * M + j] : T(0), "tril(placed)", (long)(i * M + j));
+        VP_LIB(X = triu(A)); for (size_t i = 0; i < M; ++i) for (size_t j = 0; j < M; ++j) c.eq(X.data()[i * M + j], j >= i ? A.data()[i * M + j] : T(0), "triu(placed)", (long)(i * M + j));
+        { T t; VP_LIB(t = trace(A)); long double w = 0; for (size_t i = 0; i < M; ++i) w += A.data()[i * M + i]; c.near(t, w, 8 * M * (long double)std::numeric_limits<T>::epsilon() * (fabsl(w) + 4 * M), "trace(placed)", 0); }
+        { T d; VP_LIB(d = determinant(A)); c.check(d == d, "non-finite", "determinant(placed)"); T ad; VP_LIB(ad = absdet(A)); c.check(ad >= 0, "mismatch", "absdet(placed)>=0"); T ld; VP_LIB(ld = logdet(A)); c.check(ld == ld, "non-finite", "logdet(placed)"); }
+        VP_LIB(X = inverse(A)); for (size_t i = 0; i < M * M; ++i) if (!(X.data()[i] == X.data()[i])) { c.fail("non-finite", "inverse(placed)"); break; } ++c.checks;
+        VP_LIB(lu(A, L, U)); ++c.checks;
+        VP_LIB(x = solve(A, b)); ++c.checks;
+        { Placed<Tensor<T, M, M>> pQ(pl), pR(pl); VP_LIB(qr(A, *pQ, *pR)); ++c.checks; pQ.verify(c, "Q"); pR.verify(c, "R"); }
+        { bool s; VP_LIB(s = issymmetric(A)); (void)s; VP_LIB(s = isorthogonal(A)); (void)s; VP_LIB(s = isuniform(A)); c.check(s, "mismatch", "isuniform(square)"); VP_LIB(s = issquare(A)); c.check(s, "mismatch", "issquare(square)"); ++c.checks; }
+        pA.verify(c, "A"); pX.verify(c, "X"); pL.verify(c, "L"); pU.verify(c, "U"); pb.verify(c, "b"); px.verify(c, "x");
+    }
+};
+
+// rank-2 owning tensors: transpose family, matmul in all three API forms, outer products, square-only operations
+template <class T, size_t M, size_t K, size_t N>
+void own2d(Ctx& c) {
+    Rng g = c.rng();
+    for (int pl : PLACEMENTS) {
+        Placed<Tensor<T, M, K>> pA(pl); Placed<Tensor<T, K, N>> pB(pl); Placed<Tensor<T, M, N>> pC(pl); Placed<Tensor<T, K, M>> pAt(pl);
+        Tensor<T, M, K>& A = *pA; Tensor<T, K, N>& B = *pB; Tensor<T, M, N>& C = *pC; Tensor<T, K, M>& At = *pAt;
+        fill_small(A.data(), M * K, g, 5); fill_small(B.data(), K * N, g, 5); paint(C.data(), M * N); paint(At.data(), M * K);
+        T ref[M * N]; for (size_t i = 0; i < M; ++i) for (size_t j = 0; j < N; ++j) { T s = T(0); for (size_t k = 0; k < K; ++k) s += A.data()[i * K + k] * B.data()[k * N + j]; ref[i * N + j] = s; }
+        VP_LIB(C = matmul(A, B)); for (size_t i = 0; i < M * N; ++i) c.eqn(C.data()[i], ref[i], "placed=matmul(placed,placed)", (long)i);
+        paint(C.data(), M * N); VP_LIB(C = A % B); for (size_t i = 0; i < M * N; ++i) c.eqn(C.data()[i], ref[i], "placed=placed%placed", (long)i);
+        paint(C.data(), M * N); VP_LIB(Fastor::_matmul<T, M, K, N>(A.data(), B.data(), C.data())); for (size_t i = 0; i < M * N; ++i) c.eqn(C.data()[i], ref[i], "_matmul(placed storage)", (long)i);
+        VP_LIB(At = transpose(A)); for (size_t i = 0; i < M; ++i) for (size_t k = 0; k < K; ++k) c.eq(At.data()[k * M + i], A.data()[i * K + k], "placed=transpose(placed)", (long)(i * K + k));
+        paint(At.data(), M * K); VP_LIB(At = trans(A)); for (size_t i = 0; i < M; ++i) for (size_t k = 0; k < K; ++k) c.eq(At.data()[k * M + i], A.data()[i * K + k], "placed=trans(placed)", (long)(i * K + k));
+        paint(At.data(), M * K); VP_LIB(Fastor::_transpose<T, M, K>(A.data(), At.data())); for (size_t i = 0; i < M; ++i) for (size_t k = 0; k < K; ++k) c.eq(At.data()[k * M + i], A.data()[i * K + k], "_transpose(placed storage)", (long)(i * K + k));
+        { Placed<Tensor<T, M, K, K, N>> pO(pl); VP_LIB(*pO = outer(A, B)); c.eqn(pO->data()[0], (T)(A.data()[0] * B.data()[0]), "outer(placed,placed)[0]", 0); c.eqn(pO->data()[M * K * K * N - 1], (T)(A.data()[M * K - 1] * B.data()[K * N - 1]), "outer(placed,placed)[last]", 1); pO.verify(c, "outer"); }
+        { Tensor<T, 1, K> row; VP_LIB(row = A(M - 1, all)); for (size_t k = 0; k < K; ++k) c.eq(row.data()[k], A.data()[(M - 1) * K + k], "placed(last,all)", (long)k); }
+        { Tensor<T, M, 1> col; VP_LIB(col = A(all, K - 1)); for (size_t i = 0; i < M; ++i) c.eq(col.data()[i], A.data()[i * K + K - 1], "placed(all,last)", (long)i); }
+        pA.verify(c, "A"); pB.verify(c, "B"); pC.verify(c, "C"); pAt.verify(c, "At");
+        if (M == K && K == N) Square<T, M>::run(c, pl);
         ++c.sub;
     }
     c.nontrivial = true;
